@@ -3,6 +3,26 @@
 -/
 import Grip.Model.C05Access
 
+namespace Grip.C05.Access
+
+/-! SPEC side only (not linked into the driver): what a client's standard encoder sends. -/
+
+/-- the base64 alphabet (encoding/base64 encodeStd) -/
+def b64Enc (n : Nat) : UInt8 :=
+  if n < 26 then UInt8.ofNat (65 + n) else if n < 52 then UInt8.ofNat (97 + (n - 26))
+  else if n < 62 then UInt8.ofNat (48 + (n - 52)) else if n = 62 then 43 else 47
+
+/-- base64.StdEncoding.EncodeToString (SPEC side only: what a client sends) -/
+def b64Encode : Bytes → Bytes
+  | [] => []
+  | [x] => [b64Enc (x.toNat / 4), b64Enc (x.toNat % 4 * 16), b64Pad, b64Pad]
+  | [x, y] => [b64Enc (x.toNat / 4), b64Enc (x.toNat % 4 * 16 + y.toNat / 16), b64Enc (y.toNat % 16 * 4), b64Pad]
+  | x :: y :: z :: rest =>
+    b64Enc (x.toNat / 4) :: b64Enc (x.toNat % 4 * 16 + y.toNat / 16) :: b64Enc (y.toNat % 16 * 4 + z.toNat / 64)
+      :: b64Enc (z.toNat % 64) :: b64Encode rest
+
+end Grip.C05.Access
+
 namespace Grip.Props.C05Access.Lemmas
 open Grip Grip.C05 Grip.C05.Access
 
@@ -116,6 +136,85 @@ theorem splitColon_spec (bs u p : Bytes) :
           simp only [List.cons_append, List.cons.injEq] at h
           obtain ⟨rfl, h⟩ := h
           refine ⟨(xs, p), (ih xs).mpr ⟨h, fun hm => hn (List.mem_cons_of_mem _ hm)⟩, rfl⟩
+
+/-! base64: decoding undoes the standard encoder -/
+
+theorem b64Val_enc : ∀ n, n < 64 → b64Val (b64Enc n) = some n := by decide
+theorem b64Enc_ne_pad : ∀ n, n < 64 → (b64Enc n == b64Pad) = false := by decide
+theorem b64Enc_keep : ∀ n, n < 64 → (b64Enc n != 10 && b64Enc n != 13) = true := by decide
+
+theorem ofNat_toNat_mod (x : UInt8) (n : Nat) (h : n % 256 = x.toNat) : UInt8.ofNat (n % 256) = x := by
+  rw [h]; exact UInt8.ofNat_toNat
+
+theorem b64Quads_encode (bs : Bytes) : b64Quads (b64Encode bs) = some bs := by
+  induction bs using b64Encode.induct with
+  | case1 => rfl
+  | case2 x =>
+    have hx := x.toNat_lt
+    simp only [b64Encode, b64Quads, List.isEmpty_nil, Bool.true_and, beq_self_eq_true, if_true]
+    rw [b64Val_enc _ (by omega), b64Val_enc _ (by omega)]
+    simp only [Option.bind_eq_bind, Option.bind_some, Option.pure_def, Option.some.injEq, List.cons.injEq, and_true]
+    exact ofNat_toNat_mod x _ (by omega)
+  | case3 x y =>
+    have hx := x.toNat_lt
+    have hy := y.toNat_lt
+    simp only [b64Encode, b64Quads, List.isEmpty_nil, Bool.true_and, beq_self_eq_true, if_true]
+    rw [b64Enc_ne_pad _ (by omega)]
+    simp only [Bool.false_eq_true, if_false]
+    rw [b64Val_enc _ (by omega), b64Val_enc _ (by omega), b64Val_enc _ (by omega)]
+    simp only [Option.bind_eq_bind, Option.bind_some, Option.pure_def, Option.some.injEq, List.cons.injEq, and_true]
+    exact ⟨ofNat_toNat_mod x _ (by omega), ofNat_toNat_mod y _ (by omega)⟩
+  | case4 x y z rest ih =>
+    have hx := x.toNat_lt
+    have hy := y.toNat_lt
+    have hz := z.toNat_lt
+    simp only [b64Encode, b64Quads]
+    rw [b64Enc_ne_pad (z.toNat % 64) (by omega)]
+    simp only [Bool.and_false, Bool.false_eq_true, if_false]
+    rw [b64Val_enc _ (by omega), b64Val_enc _ (by omega), b64Val_enc _ (by omega), b64Val_enc _ (by omega), ih]
+    simp only [Option.bind_eq_bind, Option.bind_some, Option.pure_def, Option.some.injEq, List.cons.injEq, and_true]
+    exact ⟨ofNat_toNat_mod x _ (by omega), ofNat_toNat_mod y _ (by omega), ofNat_toNat_mod z _ (by omega)⟩
+
+theorem b64Encode_keep (bs : Bytes) : ∀ c ∈ b64Encode bs, (c != 10 && c != 13) = true := by
+  induction bs using b64Encode.induct with
+  | case1 => simp [b64Encode]
+  | case2 x =>
+    have hx := x.toNat_lt
+    intro c hc
+    simp only [b64Encode, List.mem_cons, List.not_mem_nil, or_false] at hc
+    rcases hc with rfl | rfl | rfl | rfl
+    · exact b64Enc_keep _ (by omega)
+    · exact b64Enc_keep _ (by omega)
+    · decide
+    · decide
+  | case3 x y =>
+    have hx := x.toNat_lt
+    have hy := y.toNat_lt
+    intro c hc
+    simp only [b64Encode, List.mem_cons, List.not_mem_nil, or_false] at hc
+    rcases hc with rfl | rfl | rfl | rfl
+    · exact b64Enc_keep _ (by omega)
+    · exact b64Enc_keep _ (by omega)
+    · exact b64Enc_keep _ (by omega)
+    · decide
+  | case4 x y z rest ih =>
+    have hx := x.toNat_lt
+    have hy := y.toNat_lt
+    have hz := z.toNat_lt
+    intro c hc
+    simp only [b64Encode, List.mem_cons] at hc
+    rcases hc with rfl | rfl | rfl | rfl | hc
+    · exact b64Enc_keep _ (by omega)
+    · exact b64Enc_keep _ (by omega)
+    · exact b64Enc_keep _ (by omega)
+    · exact b64Enc_keep _ (by omega)
+    · exact ih c hc
+
+/-- decoding what the standard encoder produced gives the bytes back -/
+theorem b64Decode_encode (bs : Bytes) : b64Decode (b64Encode bs) = some bs := by
+  unfold b64Decode
+  rw [List.filter_eq_self.mpr (b64Encode_keep bs)]
+  exact b64Quads_encode bs
 
 theorem basicRunFrom_eq_map (creds : List (String × String)) (s : Unit) (mds : List MD) :
     basicRunFrom creds s mds = mds.map (basicValidate creds) := by
